@@ -1,6 +1,7 @@
 """C06 - the CP-to-SAT encoding has exactly the models of the CP problem (bounded back end: clause list captured,
 all models enumerated by an independent all-SAT, projected on the named variables, compared as sets)."""
 from checks import cp_common as C
+from checks import cp_round2 as R
 from vf.core import use_repo
 from vf.pool import pmap
 
@@ -18,11 +19,14 @@ def run(ctx):
     nontriv = set()
     fam = {}
     samples = []
-    skipped = 0
+    skipped = not_buildable = 0
     for ch in res:
         for c, viol, info in ch:
             if "skipped" in info:
-                skipped += 1
+                if "booleans" in info["skipped"]:
+                    skipped += 1
+                else:
+                    not_buildable += 1
                 continue
             n += 1
             fam[c["family"]] = fam.get(c["family"], 0) + 1
@@ -36,13 +40,139 @@ def run(ctx):
             for ob, detail in viol:
                 ctx.violation(ob, {"desc": c["desc"]}, detail)
     ctx.count(n, nontriv, samples or [cases[0]])
-    ctx.scope("CP models by family", **fam)
+    ctx.scope("small scope: CP models by family, all models of the CNF enumerated (all-SAT up to 26 booleans, else projected with z3 one box point at a time)", **fam)
     ctx.notes["skipped_beyond_all_sat_bound"] = skipped
-    ctx.rule = ("same model generator as C05; per model the clause list handed to solve_sat is captured, all its models are enumerated by an independent "
-                "splitting all-SAT (<= 26 booleans), each model must decode every integer variable to exactly one value, and the decoded set must equal the "
-                "brute-force CP solution set. non-trivial = CP solution set non-empty and smaller than the domain box; distinct = different model")
+    ctx.notes["shapes_not_offered_by_the_public_operators"] = not_buildable
+    oracle_selftest(ctx, models)
+    large(ctx)
+    history(ctx)
+    ctx.rule = ("(1) small scope: same model generator as C05; per model the clause list handed to solve_sat is captured, all its models are enumerated by an independent "
+                "splitting all-SAT (<= 26 booleans; larger CNFs over a box of <= 4000 points are projected with z3: CNF + assignment satisfiable? for every box point), "
+                "each model must decode every integer variable to exactly one value, and the decoded set must equal the "
+                "brute-force CP solution set; non-trivial = CP solution set non-empty and smaller than the domain box. "
+                "(2) size ladder (cp_round2.gen_large, 6..1000+ variables): the captured CNF is loaded into z3; (a) 'some named variable has not exactly one true value literal' must be "
+                "unsatisfiable; (b) every probe assignment (planted solutions, permutations of every cycle type for circuit, duplicate pairs for all_different, overloads, "
+                "off-by-one sums ...) must be accepted by the CNF iff it passes the direct check of oracles/cp_sem.py; (c) CNF + channelling + negated semantics (stated in "
+                "integer arithmetic, oracles/cp_z3.py) is searched for an extra model within a time limit; non-trivial = the model has probes of both kinds or a certificate. "
+                "(3) history mode: sessions on ONE Model object (solve, int_var/add, solve ...); at every solve that reaches the encoder the CNF's projection on the named "
+                "variables must equal the brute-force solution set of the model as it is at that call, and (last call) the projection computed in a fresh process. "
+                "distinct = different model / session prefix")
     ctx.assumptions += ["decoding uses IntVar.bool_vars of the named variables (the encoder's own variable map)",
-                        "models with more than 26 booleans are skipped and counted (skipped_beyond_all_sat_bound)"]
+                        "small-scope models with more than 26 booleans whose box exceeds 4000 points are skipped and counted (skipped_beyond_all_sat_bound)",
+                        "size ladder: z3 'unknown' answers (time limit) are counted (z3_undecided) and not judged; an 'unsat' of the negated-semantics search is trusted, every "
+                        "'sat' (extra model) is re-checked with oracles/cp_sem.py before it is reported"]
+    ctx.trusted += ["oracles/cp_sem.py (reference semantics)", "z3 as the independent SAT/SMT solver deciding CNF + assignment and CNF + negated semantics (oracles/cp_z3.py)"]
+
+
+def _digest(x):
+    import hashlib, json
+    return hashlib.sha1(json.dumps(x, sort_keys=True).encode()).hexdigest()[:12]
+
+
+def _selftest_chunk(descs):
+    from oracles import cp_z3
+    out = []
+    for d in descs:
+        out += [repr(b)[:300] for b in cp_z3.selftest(d)]
+    return out
+
+
+def oracle_selftest(ctx, models):
+    """the arithmetic statement of the semantics (oracles/cp_z3.py, trusted when it answers 'no extra model') must agree with
+    oracles/cp_sem.py point by point on small models; a disagreement is a checker defect"""
+    import random
+    sel = [{"vars": m["vars"], "constraints": m["constraints"]} for m in models if m["family"] != "rel"]
+    random.Random(ctx.seed + 3).shuffle(sel)
+    sel = sel[: 240 if ctx.quick else 2400]
+    res = pmap(_selftest_chunk, [sel[i:i + 15] for i in range(0, len(sel), 15)], chunksize=1)
+    bad = [b for r in res for b in r]
+    for b in bad[:5]:
+        ctx.defects.append(f"oracles/cp_z3.py disagrees with oracles/cp_sem.py: {b}")
+    ctx.notes["z3_semantics_selftest_models"] = len(sel)
+
+
+def _large_one(case):
+    return R.eval_c06_large(case)
+
+
+def large(ctx):
+    models = R.gen_large(ctx.seed, ctx.quick, "C06")
+    cases = [{"desc": d["desc"], "probes": d["probes"], "family": d["family"], "size": d["size"], "cert": d.get("cert"),
+              "neg_timeout_ms": 1500 if ctx.quick else 30000, "cpu_s": 120 if ctx.quick else 600} for d in models]
+    cases.sort(key=lambda c: -sum(ub - lb + 1 for _, lb, ub in c["desc"]["vars"]))
+    res = pmap(_large_one, cases, chunksize=1)
+    fam, nontriv, samples = {}, set(), []
+    n = n_probes = undecided = neg_done = timeouts = 0
+    per_ob = {}
+    for c, (viol, info) in zip(cases, res):
+        if "skipped" in info:
+            continue
+        if "timeout" in info:
+            timeouts += 1
+            continue
+        n += 1
+        n_probes += info.get("probes", 0)
+        undecided += info.get("unknown", 0) + (1 if info.get("neg_search") == "unknown" else 0)
+        neg_done += 1 if info.get("neg_search") in ("none", "extra") else 0
+        fam.setdefault(c["family"], set()).add(c["size"])
+        if (info.get("probe_sat") and info.get("probe_unsat")) or c.get("cert"):
+            nontriv.add("L" + _digest(c["desc"]))
+        if "oracle_conflict" in info:
+            ctx.defects.append(f"C06 size ladder {c['family']} n={c['size']}: {info['oracle_conflict']}")
+        if len(samples) < 4 and n % 23 == 0:
+            samples.append({"family": c["family"], "size": c["size"], **{k: info[k] for k in ("n_bool", "n_clauses", "probes", "probe_sat", "probe_unsat", "neg_search") if k in info}})
+        for ob, detail in viol:
+            per_ob.setdefault(ob, []).append((c["size"], {**c, "probes": info.get("bad_probes") or c["probes"][:3]}, detail))
+    for ob, lst in per_ob.items():
+        lst.sort(key=lambda t: t[0])
+        for _, c, detail in lst[:3]:
+            ctx.violation(ob + "[size-ladder]", {"kind": "large", **{k: c[k] for k in ("desc", "probes", "family", "size", "cert")}},
+                          f"{c['family']} n={c['size']}: {detail}" + (f" ({len(lst)} findings of this obligation)" if len(lst) > 1 else ""))
+    ctx.count(n + n_probes, nontriv, samples)
+    ctx.scope("size ladder: CNF of structured models probed with z3 (assignment probes with known status, complete exactly-one check, negated-semantics search)",
+              models=n, probes=n_probes, negated_semantics_search_decided=neg_done, z3_undecided=undecided,
+              max_variables=max(len(d["desc"]["vars"]) for d in models), **{k: sorted(v) for k, v in fam.items()})
+    ctx.notes["z3_undecided"] = undecided
+    ctx.notes["large_encoder_timeouts"] = timeouts
+
+
+def history(ctx):
+    scns = R.gen_histories(ctx.seed, ctx.quick, 700 if ctx.quick else 12000)
+    chunks = [scns[i:i + 14] for i in range(0, len(scns), 14)]
+    res = pmap(R.eval_c06_history_chunk, chunks, chunksize=1)
+    n = 0
+    nontriv, samples, per_ob = set(), [], {}
+    kinds = {"sessions": len(scns), "cnfs_judged": 0, "feasible": 0, "infeasible": 0, "after_int_var_following_a_solve": 0}
+    for out, errs in res:
+        for e in errs:
+            ctx.defects.append(f"C06 history: fresh-process comparison failed: {e}")
+        for scn, viol, infos in out:
+            st = scn["steps"]
+            for i in infos:
+                if "n_ref" not in i:
+                    continue
+                n += 1
+                kinds["cnfs_judged"] += 1
+                kinds["feasible" if i["n_ref"] else "infeasible"] += 1
+                if any(s[0] == "var" and any(t[0] == "solve" for t in st[:k]) for k, s in enumerate(st[:i["step"]])):
+                    kinds["after_int_var_following_a_solve"] += 1
+                if 0 < i["n_ref"] < i["box"]:
+                    nontriv.add(repr(("h", scn["id"], i["step"])))
+            if len(samples) < 2 and scn["id"] % 401 == 7:
+                samples.append({"history": st})
+            seen = set()
+            for ob, detail, step in viol:
+                if ob in seen:
+                    continue
+                seen.add(ob)
+                per_ob.setdefault(ob, []).append((step, scn, detail))
+    for ob, lst in per_ob.items():
+        lst.sort(key=lambda t: t[0])
+        for step, scn, detail in lst[:3]:
+            ctx.violation(ob, {"kind": "history", "steps": scn["steps"][:step + 1] if step >= 0 else scn["steps"], "id": scn["id"]},
+                          detail + (f" ({len(lst)} sessions hit this obligation)" if len(lst) > 1 else ""))
+    ctx.count(n, nontriv, samples)
+    ctx.scope("history mode: sessions on one Model object; CNF captured at every solve, projected on the named variables with z3, compared with brute force and a fresh process", **kinds)
 
 
 def prove(ctx):
@@ -59,6 +189,22 @@ def prove(ctx):
 
 def replay(rec):
     use_repo()
-    v, info = C.eval_c06(rec["case"])
+    c = rec["case"]
+    if not isinstance(c, dict):
+        return R.replay_caseless(rec, "C06")
+    if c.get("kind") == "large":
+        v, info = R.eval_c06_large({**c, "neg_timeout_ms": 60000, "cpu_s": 900})
+        print("replay:", v or "no violation", info)
+        return 1 if v else 0
+    if c.get("kind") == "history":
+        fo = []
+        v, infos = R.eval_c06_history({"steps": c["steps"], "id": c.get("id", 0)}, fo)
+        if fo and not v:  # the comparison with a new interpreter
+            a = R._fresh_process("c06", [{"desc": fo[-1]["desc"]}])[0]
+            if a is not None and sorted(map(repr, fo[-1]["acc"])) != sorted(map(repr, a)):
+                v.append(("C06/SATEncoder/ensures:cnf-independent-of-earlier-solves-on-the-object", f"{len(fo[-1]['acc'])} vs {len(a)} accepted assignments", fo[-1]["step"]))
+        print("replay:", [(ob, d) for ob, d, _ in v] or "no violation", infos[-1:])
+        return 1 if v else 0
+    v, info = C.eval_c06(c)
     print("replay:", v or "no violation", info)
     return 1 if v else 0
